@@ -141,7 +141,7 @@ class World(HWorld):
             if rlp_any(el) not in on_path:
                 self.viol("proof-off-path", f"get_proof({key.hex()}) contains a node that is not on the key's path: {el!r}")
         want = contents.get(key, b"")
-        status, got = self.call(HexaryTrie.get_from_proof, root, key, tuple(proof))
+        status, got = self.call(HexaryTrie.get_from_proof, root, key, (tuple(proof), list(proof), iter(list(proof)))[self.ev % 3])
         if status == "exc":
             self.viol("proof-incomplete", f"get_from_proof(root, {key.hex()}, get_proof(key)) raised {got!r}")
         if got != want:
@@ -255,7 +255,16 @@ class World(HWorld):
     def deliver(self, cmd, key, claimed, nodes, kinds, how, true_root=None):
         st = self.st
         st.execs += 1
-        status, res = self.call(HexaryTrie.get_from_proof, claimed, key, tuple(nodes))
+        form = (self.ev + len(nodes)) % 4
+        if form == 0:
+            offered = tuple(nodes)
+        elif form == 1:
+            offered = list(nodes)
+        elif form == 2:
+            offered = iter(list(nodes))
+        else:
+            offered = (n for n in list(nodes))  # decoded lazily off the wire
+        status, res = self.call(HexaryTrie.get_from_proof, claimed, key, offered)
         contents = self.contents_of(claimed)
         stale = "msg-substitute" in kinds
         if status == "exc":
